@@ -37,6 +37,7 @@ func plan(prop, tier string) []Part {
 			{Name: "big", N: q(tier, 16, 200), Chunk: 4, Procs: []int{4, 16}, Timeout: to},
 			{Name: "err", N: q(tier, 200, 4000), Chunk: 40, Procs: []int{2, 16, 4, 1}, Timeout: to},
 			{Name: "swap", N: q(tier, 200, 4000), Chunk: 40, Procs: []int{2, 16, 4, 1}, Timeout: to},
+			{Name: "queue", N: q(tier, 200, 4000), Chunk: 40, Procs: []int{2, 16, 4, 1}, Timeout: to},
 		}
 		if tier == "thorough" {
 			// scheduler diversity: the same families built with the other installed toolchain
